@@ -3,6 +3,7 @@ package main
 // Statement execution (path-splitting symbolic execution with loop cut-points).
 
 import (
+	"os"
 	"fmt"
 	"go/ast"
 	"go/token"
@@ -212,6 +213,27 @@ func (u *Unit) execIf(st *State, x *ast.IfStmt) []*State {
 			}
 			continue
 		}
+		if x.Else == nil && u.simpleBody(x.Body.List) && os.Getenv("GOVC_NO_MERGE") == "" {
+			// `if c { plain assignments }`: executed under the guard c instead of forking the path (the assignments
+			// become conditional updates); keeps functions that are long chains of optional-field copies tractable
+			c.guard = append(c.guard, cond.S)
+			ok := true
+			for _, s0 := range x.Body.List {
+				outs := u.exec(c, s0)
+				if len(outs) != 1 || outs[0] != c || c.ctl != "" {
+					ok = false
+					break
+				}
+			}
+			c.guard = c.guard[:len(c.guard)-1]
+			if ok {
+				out = append(out, c)
+				continue
+			}
+			u.outside = "guarded execution of a simple if body forked at " + u.pos(x)
+			out = append(out, c)
+			continue
+		}
 		t := c.clone()
 		t.assume(cond.S)
 		t.trace = append(t.trace, u.pos(x)+" if "+exprString(x.Cond)+" = true")
@@ -225,6 +247,70 @@ func (u *Unit) execIf(st *State, x *ast.IfStmt) []*State {
 		}
 	}
 	return out
+}
+
+// simpleBody: only assignments / inc-dec (and nested ifs of the same kind), with expressions free of calls other than
+// builtins and conversions -- nothing that forks, returns, or has effects beyond plain stores.
+func (u *Unit) simpleBody(list []ast.Stmt) bool {
+	if len(list) == 0 {
+		return false
+	}
+	for _, s0 := range list {
+		switch s := s0.(type) {
+		case *ast.AssignStmt:
+			for _, e := range append(append([]ast.Expr{}, s.Lhs...), s.Rhs...) {
+				if !u.callFree(e) {
+					return false
+				}
+			}
+			for _, l := range s.Lhs {
+				// stores into maps and through index expressions stay on the forking path
+				if _, isIdx := ast.Unparen(l).(*ast.IndexExpr); isIdx {
+					return false
+				}
+			}
+		case *ast.IncDecStmt:
+			if !u.callFree(s.X) {
+				return false
+			}
+		case *ast.IfStmt:
+			if s.Init != nil || s.Else != nil || !u.callFree(s.Cond) || !u.simpleBody(s.Body.List) {
+				return false
+			}
+		default:
+			return false
+		}
+	}
+	return true
+}
+
+func (u *Unit) callFree(e ast.Expr) bool {
+	ok := true
+	ast.Inspect(e, func(n ast.Node) bool {
+		switch c := n.(type) {
+		case *ast.FuncLit:
+			ok = false
+			return false
+		case *ast.CallExpr:
+			if tv, has := u.info.Types[c.Fun]; has && tv.IsType() {
+				return true // conversion
+			}
+			if id, isId := ast.Unparen(c.Fun).(*ast.Ident); isId {
+				if _, isB := u.info.Uses[id].(*types.Builtin); isB && (id.Name == "len" || id.Name == "cap") {
+					return true
+				}
+			}
+			ok = false
+			return false
+		case *ast.UnaryExpr:
+			if c.Op == token.ARROW || c.Op == token.AND {
+				ok = false
+				return false
+			}
+		}
+		return true
+	})
+	return ok
 }
 
 func (u *Unit) execSwitch(st *State, x *ast.SwitchStmt) []*State {
@@ -522,6 +608,10 @@ func (u *Unit) assign(st *State, lhs ast.Expr, v *Val) {
 			srt := sortOf(obj.Type())
 			h := u.heapGet(st, name, srt)
 			u.heapSet(st, name, srt, app("store", h, "0", u.scalar(st, v)))
+			return
+		}
+		if r, esc := st.escaped[obj]; esc {
+			u.storeStruct(st, r, types.NewPointer(obj.Type()), v)
 			return
 		}
 		g := tAnd(st.guard...)
